@@ -7,6 +7,7 @@
 //! MACHINERY-ERROR, never a violation.
 
 pub mod arc4;
+pub mod blte_dec;
 pub mod lookup3;
 pub mod md5;
 pub mod salsa20;
